@@ -182,4 +182,21 @@ def ValidFrom : State → Cfg → Sched → Prop
       | .regAlloc n k => s.live (t, n) = none ∧ ∀ o, s.live o ≠ some k
       | _ => True) ∧ ValidFrom (step c s t op).1 c rest
 
+/-- Operations that do not set or reset a context variable. -/
+def Op.isPlain : Op → Bool
+  | .ctxSet _ _ => false
+  | .ctxReset _ => false
+  | _ => true
+
+/-- Well-nested use of the context variables by one thread: plain steps, and blocks
+    `set v x; …balanced…; reset v` (what `with source_…_context(x): …` executes). -/
+inductive Balanced : List Op → Prop
+  | nil : Balanced []
+  | plain {op rest} : op.isPlain = true → Balanced rest → Balanced (op :: rest)
+  | block {v x inner rest} : Balanced inner → Balanced rest →
+      Balanced (.ctxSet v x :: (inner ++ .ctxReset v :: rest))
+
+/-- the schedule in which thread `t` alone executes `ops` -/
+def solo (t : Tid) (ops : List Op) : Sched := ops.map fun op => (t, op)
+
 end Nima.Sched
